@@ -9,10 +9,26 @@ One JSON event per program; spec/Trace_AutoFwd.tla evaluates the clauses.
 import itertools
 import json
 import sys
+import types
 
 from . import absig, progs
 
 S = progs.S
+_benign = types.ModuleType('verif_benign')
+
+
+def _benign_getattr(name):
+    # a fresh object per import: programs must not share state
+    if name == 'EMPTY_K':
+        return {}
+    if name == 'EMPTY_A':
+        return ()
+    raise AttributeError(name)
+
+
+_benign.__getattr__ = _benign_getattr
+_benign.__file__ = __file__
+sys.modules['verif_benign'] = _benign
 
 
 def P(n, k, d=False):
@@ -99,6 +115,12 @@ def taint_text(s, va, vk, tkey):
         return ['with CMV(%s) as %s:' % (empty, v), '    pass']
     if how == 'walrus':
         return ['(%s := %s)' % (v, empty)]
+    if how == 'import_as':
+        return ['from verif_benign import %s as %s' % ('EMPTY_A' if s['tgt'] == 'A' else 'EMPTY_K', v)]
+    if how == 'match_capture':
+        return ['match %s:' % empty, '    case %s:' % v, '        pass']
+    if how == 'default_capture':
+        return ['H(lambda c=%s: c)' % v]
     if how == 'delete':
         return ['del %s' % v]
     if how == 'handover':
@@ -200,6 +222,10 @@ class Recorder:
     def handover(self, obj):
         if isinstance(obj, dict):
             self.handed.add(id(obj))
+        elif isinstance(obj, types.FunctionType):
+            for d in obj.__defaults__ or ():          # captured as a default value
+                if isinstance(d, dict):
+                    self.handed.add(id(d))
 
     def callee_called(self, linemap):
         if self.entry is None:
